@@ -439,9 +439,41 @@ class Program:
             return cands[0]
         raise AnalysisError(f"anchor class {qual} not found (candidates: {len(cands)})")
 
+    # the dispatch tables of the repository that rules read explicitly (command tables, element factories, extractors): a call through one of them
+    # is resolved by the rule that owns the table; a call through any other computed callable is something no engine here resolves
+    KNOWN_TABLES = ("_mappings", "_validation_mappings", "EXTRACTORS", "VERSION_MAPPING", "TYPE_MAPPING", "ELEMENT_FACTORY", "chunk_error_mapping")
+
+    def _refuse_computed_callees(self, fn):
+        """An anchor function that calls something taken from a table or computed on the spot (`TABLE[k](x)`, `D.get(k)(x)`, `next(gen)()`): the call
+        graph, effect and exception engines do not see what runs there, so no verdict about the function can be trusted - undecided, not a finding."""
+        if getattr(fn, "_callees_checked", False):
+            return
+        fn._callees_checked = True
+        assigned = set()
+        for n in ast.walk(fn.node):
+            if isinstance(n, ast.Name) and isinstance(n.ctx, ast.Store):
+                assigned.add(n.id)
+        nested = {n.name for n in ast.walk(fn.node) if isinstance(n, (ast.FunctionDef, ast.AsyncFunctionDef, ast.ClassDef)) and n is not fn.node}
+        for n in ast.walk(fn.node):
+            if isinstance(n, ast.Call) and isinstance(n.func, ast.Name) and n.func.id in assigned and n.func.id not in nested:
+                # a local variable called as a function: whatever was put into it
+                raise AnalysisError(f"{fn.qualname}: `{norm(n)[:60]}` calls the value of a local variable; what runs there is not resolved (idiom not understood, UNDECIDED)")
+            if isinstance(n, ast.Call) and isinstance(n.func, (ast.Subscript, ast.Call)):
+                base = n.func.value if isinstance(n.func, ast.Subscript) else n.func.func
+                if isinstance(n.func, ast.Call) and isinstance(base, ast.Attribute) and base.attr == "get":
+                    base = base.value
+                term = base.attr if isinstance(base, ast.Attribute) else (base.id if isinstance(base, ast.Name) else None)
+                if isinstance(n.func, ast.Call) and isinstance(n.func.func, ast.Name) and n.func.func.id in ("super", "type"):
+                    continue
+                if term in self.KNOWN_TABLES:
+                    continue
+                raise AnalysisError(f"{fn.qualname}: `{norm(n)[:60]}` calls a callable taken from a table or computed at run time; what runs there is not "
+                                    "resolved (idiom not understood, UNDECIDED)")
+
     def func(self, qual):
         r = self._func(qual)
         self.anchor_log.add(r.qualname)
+        self._refuse_computed_callees(r)
         return r
 
     def _func(self, qual):
@@ -467,6 +499,7 @@ class Program:
         if r is None or r[1] != "method":
             raise AnalysisError(f"anchor method {cls.qualname}.{name} not found")
         self.anchor_log.add(r[2].qualname)
+        self._refuse_computed_callees(r[2])
         return r[2]
 
     def subclasses(self, cls, strict=False):
